@@ -613,6 +613,23 @@ mut("c19-values-only-silent-items", "C19", "feature.go",
     "\t\t\tfor _, vv := range f.Props {\n\t\t\t\tif len(vv) == 0 {\n\t\t\t\t\tcontinue\n\t\t\t\t}\n\t\t\t\tfor _, v := range vv[1:] {\n\t\t\t\t\tif re.MatchString(v) {\n\t\t\t\t\t\treturn true\n\t\t\t\t\t}\n\t\t\t\t}\n\t\t\t}\n",
     "\t\t\tfor _, item := range f.Props.Items() {\n\t\t\t\tif re.MatchString(item.Value) {\n\t\t\t\t\treturn true\n\t\t\t\t}\n\t\t\t}\n", silent=True)
 
+mut("c07-overflow-bound-reverted", "C07", "seqio/genbank.go",
+    "\tif int64(length) > maxGenBankLength {\n\t\treturn pars.NewError(\"sequence length exceeds the supported maximum\", state.Position())\n\t}\n", "",
+    ["OVERFLOW|seqio.makeGenbankOriginParser|count#1"], note="the repaired defect, reintroduced")
+mut("c07-overflow-silent-smaller-bound", "C07", "seqio/genbank.go", "const maxGenBankLength int64 = 1 << 40", "const maxGenBankLength int64 = 1 << 31", silent=True)
+
+mut("c07-origin-line-end-reverted", "C07", "seqio/genbank_subparsers.go",
+    "\t\t\tif len(bytes.TrimSpace(q[extent:])) != 0 {\n\t\t\t\tpos.Byte += extent\n\t\t\t\treturn pars.NewError(\"residues beyond the declared sequence length\", pos)\n\t\t\t}\n\n", "",
+    ["ORIGIN-LINE-END|seqio.slowGenBankOriginParser|rest-of-line"], note="the repaired defect, reintroduced")
+mut("c16-origin-line-end-reverted", "C16", "seqio/genbank_subparsers.go",
+    "\t\t\tif len(bytes.TrimSpace(q[extent:])) != 0 {\n\t\t\t\tpos.Byte += extent\n\t\t\t\treturn pars.NewError(\"residues beyond the declared sequence length\", pos)\n\t\t\t}\n\n", "",
+    ["ORIGIN-LINE-END|seqio.slowGenBankOriginParser|rest-of-line"], note="the repaired defect, reintroduced")
+mut("c07-origin-line-end-silent-len", "C07", "seqio/genbank_subparsers.go",
+    "\t\t\tif len(bytes.TrimSpace(q[extent:])) != 0 {\n", "\t\t\tif tail := bytes.TrimSpace(q[extent:]); len(tail) > 0 {\n", silent=True)
+mut("c07-origin-end-reverted", "C07", "seqio/genbank_subparsers.go",
+    "\t\t\t\tgb.Origin = &Origin{p, false}\n\t\t\t\treturn expectNoMoreResidues(state)\n", "\t\t\t\tgb.Origin = &Origin{p, false}\n\t\t\t\treturn nil\n",
+    ["ORIGIN-END|seqio.makeGenbankOriginParser|store#1"], note="the repaired defect, reintroduced on the fast path")
+
 if __name__ == "__main__":
     here = os.path.dirname(os.path.abspath(__file__))
     ids = [m["id"] for m in M]
